@@ -253,6 +253,9 @@ def _c13_remote(o, driver, rng):
             x.pop("api", None)
         sc.pop("debug", None)
         sc["fault"] = {"sim": rng.choice(tb), "n": 0, "kind": kinds[k % len(kinds)]}
+        ie = sc["sims"][sc["fault"]["sim"]].get("init_ev")
+        if ie is not None and ie >= sc["until"]:
+            continue        # set_initial_event replaced the time-0 step by an event at or after until: the simulator never steps, no reply to judge
         outcome, obs = dt.run_remote(sc)
         if outcome.startswith("failed ScenarioError"):
             continue        # an invalid scenario (unresolved cycle, rejected connection): the run never starts, nothing to judge
